@@ -177,11 +177,14 @@ def gen_opts(rng):
 
 
 def gen_script(rng):
-    kind = rng.choice(["rand", "rand", "rand", "allT", "allF", "oneF", "TthenF", "late"])
+    kind = rng.choice(["rand", "rand", "rand", "rand", "allT", "allF", "oneF", "TthenF", "TthenF", "late", "late"])
     n = rng.choice([0, 1, 2, 3, 5, 8, 12, 20, 30])
     if kind == "rand":
         p = rng.choice([0.9, 0.7, 0.5, 0.3])
-        return [rng.random() < p for _ in range(n)]
+        s = [rng.random() < p for _ in range(n)]
+        if s and rng.random() < 0.75:
+            s[0] = True  # a failing first solve ends the run at once: keep that class small
+        return s
     if kind == "allT":
         return [True] * n
     if kind == "allF":
@@ -301,8 +304,7 @@ def model_margin(opts, mo):
                 upd(th)  # theta == 0.0
                 upd(th - 1)  # theta >= 1.0
             if th < 1:
-                if k > 0 or True:
-                    upd(th + d - 1)  # theta + delta >= 1.0 (rounded sum in binary64)
+                upd(th + d - 1)  # theta + delta >= 1.0 (a rounded sum in binary64, also at the first solve)
         else:
             if k > 0:
                 upd(th - ts)  # theta == theta_start
@@ -542,16 +544,16 @@ def run(c):
     cls = make_stub_class()
     run_batch(c, cls, CORPUS, "corpus")
     legacy_probe(c)
-    stream_random(c, cls, c.n(400, 6000))
+    stream_random(c, cls, c.n(1500, 8000))
     if c.big:
         n = stream_exhaustive(c, cls, grid_thorough(), 12)
         c.exhaustive = True
         c.notes.append("all outcome sequences of length <= 12 for %d option sets enumerated (%d runs); " % (len(grid_thorough()), n))
     else:
-        n = stream_exhaustive(c, cls, GRID_QUICK, 7)
+        n = stream_exhaustive(c, cls, GRID_QUICK, 9)
         c.exhaustive = False
-        c.notes.append("all outcome sequences of length <= 7 for %d option sets enumerated (%d runs); " % (len(GRID_QUICK), n))
-    c18_real.stream_real(c, c.n(10, 120), oracle, compare, model_line)
+        c.notes.append("all outcome sequences of length <= 9 for %d option sets enumerated (%d runs); " % (len(GRID_QUICK), n))
+    c18_real.stream_real(c, c.n(24, 160), oracle, compare, model_line)
     c.programs = c.dist.get("real/programs", 0)
     c.notes.append("the unbounded claim (every outcome oracle, all options) is carried by the theorems; "
                    "the enumeration ties the model to the code on that sub-space.")
